@@ -457,6 +457,11 @@ class TraceSeam:
         self.on_raise = None      # callable(frame, event, arg, exc): the agent's function raised
         self.post = None          # callable(frame, event, arg, result)
         self.hidden = (SIMKIT_DIR,)
+        # Only host-program files and deep.* are shown to the agent.  Frames of the standard library and of
+        # third-party packages are hidden: which of them execute depends on process-global caches (logging's level
+        # cache, importlib, lru_caches), so tracing them would make the number of clock reads - and with it the
+        # schedule - depend on what ran earlier in the process.  set by seams.install().
+        self.visible = ("/simapp/", "/simlib/")
 
     def wrap(self, fn):
         if fn is None:
@@ -466,10 +471,9 @@ class TraceSeam:
         if w is not None and w.inner == fn:
             return w
         seam = self
-        hidden = self.hidden
 
         def sim_trace_wrapper(frame, event, arg):
-            if frame.f_code.co_filename.startswith(hidden):
+            if not frame.f_code.co_filename.startswith(seam.visible):
                 return None
             rec = seam.recorder
             if rec is not None:
@@ -642,7 +646,10 @@ class UuidShim:
         k = _k.K
         if k is None:
             return _ruuid.uuid4()
-        return _ruuid.UUID(int=k.ch.rng("uuid").getrandbits(128), version=4)
+        u = _ruuid.UUID(int=k.ch.rng("uuid").getrandbits(128), version=4)
+        me = k.me()
+        k.uuids.append((me.name if me is not None else "?", str(u)))
+        return u
 
 
 TIME = TimeShim()
